@@ -45,6 +45,8 @@ pub struct OpOpts {
     pub mutations: bool,
     pub subscriptions: bool,
     pub multiple_operations: bool,
+    /// relative weight of subscription operations (queries have 70, mutations 15)
+    pub subscription_weight: u32,
     /// same response key used several times (fields that must merge)
     pub overlapping: bool,
     /// `null` literals, single values for list types
@@ -73,6 +75,7 @@ impl Default for OpOpts {
             mutations: true,
             subscriptions: true,
             multiple_operations: true,
+            subscription_weight: 15,
             overlapping: true,
             null_and_coercion: true,
             null_in_custom_scalar_list: false,
@@ -97,6 +100,7 @@ impl OpOpts {
             mutations: false,
             subscriptions: false,
             multiple_operations: false,
+            subscription_weight: 15,
             overlapping: false,
             null_and_coercion: true,
             null_in_custom_scalar_list: false,
@@ -706,7 +710,7 @@ pub fn valid_document(c: &mut Choices, schema: &RefSchema, opts: &OpOpts) -> Doc
     let mut ops: Vec<OperationDef> = vec![];
     for i in 0..n_ops {
         let w_mut = if opts.mutations && schema.mutation.is_some() { 15 } else { 0 };
-        let w_sub = if opts.subscriptions && schema.subscription.is_some() { 15 } else { 0 };
+        let w_sub = if opts.subscriptions && schema.subscription.is_some() { opts.subscription_weight } else { 0 };
         let op = match g.c.weighted(&[70, w_mut, w_sub]) {
             1 => OpType::Mutation,
             2 => OpType::Subscription,
